@@ -10,6 +10,11 @@ def run(ctx):
         system.validate(ctx, t, ["TrFd"], "descriptor ledger, " + tags)
     t = system.record(ctx, "shutdown", test="TestVerifShutdown")
     system.validate(ctx, t, ["TrFd"], "descriptor ledger across shutdown races")
+    if ctx.thorough:
+        # the engine model reproduces KF-1 (a socket whose registration is queued behind the exit signal) and shows
+        # that it is the only way an accepted socket is left open at return (LeakOnlyBehindExit)
+        system.engine_design(ctx)
+    system.engine_traces(ctx, t, "shutdown")
     ctx.assumptions += system.SYS_ASSUME
     return vlib.finish(ctx, "model_checking",
                        "one case = one engine life (6 configurations {LT, ET, ET+chunk} x {tcp, unix} per round, random loops / reuse-port / buffer sizes) with 6-11 scripted connections each: segmentations (1 byte, exactly the read buffer, bursts, data+FIN), consumption policies (Read/Next/Peek+Discard/Discard/WriteTo, lazy, peek-only); every event validated by TrFd.tla (use only owned descriptors, close owned once, fresh descriptors unowned, foreign descriptors untouched, nothing owned after Run returns)")
